@@ -9,6 +9,7 @@
 
 mod checks;
 mod convert;
+mod dsbuild;
 mod framework;
 mod pdugen;
 mod simio;
@@ -17,6 +18,12 @@ use std::io::Read;
 
 fn main() {
     let args: Vec<String> = std::env::args().collect();
+    // keep large, short-lived allocations (codec states, PDU buffers) on the heap
+    // instead of mmap/munmap per run: the page-fault churn dominated run time
+    unsafe {
+        libc::mallopt(libc::M_MMAP_THRESHOLD, 1 << 30);
+        libc::mallopt(libc::M_TRIM_THRESHOLD, 1 << 30);
+    }
     let code = real_main(&args);
     // leave without running destructors of parked threads etc.
     unsafe { libc::_exit(code) }
